@@ -47,6 +47,13 @@ pub open spec fn split_seq(s: Seq<char>, c: char) -> Seq<Seq<char>> decreases s.
 #[verifier::external_body] pub fn vsplit_collect<'a>(s: &'a str, c: char) -> (r: Vec<&'a str>)
     ensures r@.len() == split_seq(s@, c).len(), forall|i: int| 0 <= i < r@.len() ==> (#[trigger] r@[i])@ == split_seq(s@, c)[i] { unimplemented!() }
 #[verifier::external_body] pub fn vtrim_end_matches<'a>(s: &'a str, c: char) -> (r: &'a str) ensures r@ == trim_end(s@, c) { unimplemented!() }
+// str::trim_end_matches with a `char` pattern (any other pattern: unspecified)
+pub uninterp spec fn pat_char<P>(p: P) -> Option<char>;
+pub broadcast proof fn axiom_pat_char(c: char) ensures #[trigger] pat_char::<char>(c) == Some(c) { admit(); }
+#[verifier::allow(undeclared_external_trait)]
+pub assume_specification<'a, P: core::str::pattern::Pattern>[ str::trim_end_matches ](s: &'a str, p: P) -> (r: &'a str)
+    where for<'b> P::Searcher<'b>: core::str::pattern::ReverseSearcher<'b>,
+    ensures pat_char(p) is Some ==> r@ == trim_end(s@, pat_char(p)->Some_0);
 #[verifier::external_body] pub fn vconcat(a: String, b: &str) -> (r: String) ensures r@ == a@ + b@ { unimplemented!() }
 // core::fmt::Formatter as an output buffer; a write either appends or fails (then the whole formatting fails)
 pub mod fmt {
